@@ -175,7 +175,8 @@ fn js_value_to_json_with_visited(
         JsValue::Number(n) => {
             if n.is_finite() {
                 // Check if the number is a whole integer that fits in i64
-                if math::fract(*n) == 0.0 && *n >= i64::MIN as f64 && *n <= i64::MAX as f64 {
+                // (i64::MAX as f64 rounds up to 2^63, which does not fit: the cast would saturate)
+                if math::fract(*n) == 0.0 && *n >= i64::MIN as f64 && *n < i64::MAX as f64 {
                     serde_json::Value::Number(serde_json::Number::from(*n as i64))
                 } else {
                     serde_json::Value::Number(
